@@ -143,7 +143,7 @@ func stressDVZero(r *hx.Run, f []string) {
 		}
 		wait := 5 * time.Millisecond
 		if forced {
-			wait = 20 * time.Second
+			wait = 3 * time.Second
 		}
 		var computations atomic.Int32
 		paused, writerDone, ctorDone := make(chan struct{}), make(chan struct{}), make(chan struct{})
